@@ -45,7 +45,7 @@ func (g *c16G) actionYAML() string {
 		if r.Chance(1, 6) {
 			d.put("deprecationMessage", g.u("text", "old"))
 		}
-		ins.put(g.u("inputname", r.Pick([]string{"name", "level", "token", "Path"})), d)
+		ins.put(g.uf("inputname", r.Pick([]string{"name", "level", "token", "Path"}), 1, 4), d)
 	}
 	if len(ins.k) > 0 {
 		m.put("inputs", ins)
@@ -115,7 +115,7 @@ func (g *c16G) calleeYAML() string {
 		})
 	}
 	ins := c16M()
-	for i, n := 0, r.Range(0, 3); i < n; i++ {
+	for i, n := 0, r.Range(1, 3); i < n; i++ {
 		d := c16M("type", g.u("inputtype", r.Pick([]string{"string", "boolean", "number"})))
 		if r.Bool() {
 			d.put("required", g.u("bool", "true"))
@@ -123,14 +123,18 @@ func (g *c16G) calleeYAML() string {
 		if r.Chance(1, 3) {
 			d.put("default", g.u("default", "1"))
 		}
-		ins.put(g.u("inputname", r.Pick([]string{"name", "level", "flag", "Name"})), d)
+		ins.put(g.uf("inputname", r.Pick([]string{"name", "level", "flag", "Name"}), 1, 4), d)
 	}
 	call := c16M()
 	if len(ins.k) > 0 || r.Bool() {
 		call.put("inputs", ins)
 	}
-	if r.Bool() {
-		call.put("secrets", c16M(g.u("inputname", "token"), c16M("required", g.u("bool", "true"))))
+	if r.Chance(5, 6) {
+		secs := c16M()
+		for i, n := 0, r.Range(1, 3)+r.Intn(2); i < n && i < 3; i++ {
+			secs.put(g.uf("inputname", []string{"token", "key", "pw"}[i], 1, 2), c16M("required", g.u("bool", r.Pick([]string{"true", "false"}))))
+		}
+		call.put("secrets", secs)
 	}
 	if r.Bool() {
 		call.put("outputs", c16M(g.u("inputname", "out"), c16M("value", "${{ jobs.a.outputs.x }}")))
@@ -162,7 +166,7 @@ func (g *c16G) projectWorkflow() string {
 	}
 	jobs.put("local", c16M("runs-on", g.runsOn(), "steps", steps))
 	// a job calling the local reusable workflow
-	call := c16M("uses", g.u("localworkflow", r.Pick([]string{"./.github/workflows/callee.yml", "./.github/workflows/callee.yml", "./.github/workflows/nothere.yml", "./.github/workflows"})))
+	call := c16M("uses", g.u("localworkflow", r.Pick([]string{"./.github/workflows/callee.yml", "./.github/workflows/callee.yml", "./.github/workflows/callee.yml", "./.github/workflows/nothere.yml", "./.github/workflows"})))
 	if r.Chance(3, 4) {
 		w := c16M()
 		for j, k := 0, r.Range(1, 3); j < k; j++ {
@@ -170,11 +174,15 @@ func (g *c16G) projectWorkflow() string {
 		}
 		call.put("with", w)
 	}
-	if r.Bool() {
-		if r.Chance(1, 4) {
+	if r.Chance(3, 4) {
+		if r.Chance(1, 5) {
 			call.put("secrets", "inherit")
 		} else {
-			call.put("secrets", c16M(g.u("withname", r.Pick([]string{"token", "other"})), "${{ secrets.T }}"))
+			sm := c16M(g.u("withname", r.Pick([]string{"token", "other", "zq-secret"})), "${{ secrets.T }}")
+			if r.Bool() {
+				sm.put(g.u("withname", "zq-secret2"), "${{ secrets.U }}")
+			}
+			call.put("secrets", sm)
 		}
 	}
 	jobs.put("call", call)
